@@ -4,9 +4,12 @@ package main
 // into bytes with the harness's own box writer.
 
 import (
+	"bytes"
 	"encoding/hex"
 	"encoding/json"
 	"fmt"
+
+	"github.com/Eyevinn/mp4ff/mp4"
 )
 
 func init() {
@@ -199,4 +202,268 @@ func c04Shapes(args []string) error {
 		return nil
 	})
 	return err
+}
+
+// ---- G7: cross-referencing combinations (CrossRefs.tla)
+
+func init() {
+	register("c04-crossrefs", c04CrossRefs)
+}
+
+var piffSencUUID = []byte{0xa2, 0x39, 0x4f, 0x52, 0x5a, 0x9b, 0x4f, 0x14, 0xa2, 0x44, 0x6c, 0x42, 0x7c, 0x64, 0x8d, 0xf4}
+
+func crossMoov(v string) []byte {
+	switch v {
+	case "none":
+		return nil
+	case "frag":
+		return mkBox("moov", mMvhd(1000, 0, 2), shapeTrak(1, ""), mkBox("mvex", mTrex(1, 0, 0, 0)))
+	case "enc0": // cbcs style: per-sample IV size 0, constant IV of 8 bytes, pattern 1:9
+		sinf := mkBox("sinf", mkBox("frma", []byte("avc1")), mkFull("schm", 0, 0, []byte("cbcs"), be32(0x10000)),
+			mkBox("schi", mkFull("tenc", 1, 0, []byte{0, 0x19, 1, 0}, make([]byte, 16), []byte{8}, []byte{1, 2, 3, 4, 5, 6, 7, 8})))
+		stbl := [][]byte{mStsd(mVisualEntry("encv", 16, 16, sinf)), mStts(nil), mStsc(nil), mStsz(0, nil), mStco(nil)}
+		trak := mkBox("trak", mTkhd(1, 0, false, 16, 16), mkBox("mdia", mMdhd(1000, 0), mHdlr("vide", "v"), mkBox("minf", mVmhd(), mDinf(), mkBox("stbl", stbl...))))
+		return mkBox("moov", mMvhd(1000, 0, 2), trak, mkBox("mvex", mTrex(1, 0, 0, 0)))
+	}
+	return mkBox("moov", mMvhd(1000, 0, 2), shapeTrak(1, "enc"), mkBox("mvex", mTrex(1, 0, 0, 0)))
+}
+
+func crossTraf(c map[string]string, at int) []byte {
+	samples := []mSample{{10, 3, 0x02000000, 0}, {10, 4, 0x01010000, 2}}
+	build := func(dataOff, sencOff int64) ([]byte, int64) {
+		var kids [][]byte
+		switch c["tfhd"] {
+		case "t1":
+			kids = append(kids, mTfhd(0x20000, 1, 0, 0, 0, 0, 0))
+		case "t9":
+			kids = append(kids, mTfhd(0x20000, 9, 0, 0, 0, 0, 0))
+		case "sdi":
+			kids = append(kids, mTfhd(0x2003a, 1, 0, 1, 10, 3, 0x01010000))
+		}
+		kids = append(kids, mTfdt(1, 100))
+		switch c["trun"] {
+		case "n2":
+			kids = append(kids, mTrun(1, 0xf01, dataOff, 0, samples))
+		case "n0":
+			kids = append(kids, mTrun(1, 0xf01, dataOff, 0, nil))
+		case "two":
+			kids = append(kids, mTrun(1, 0xf01, dataOff, 0, samples[:1]), mTrun(1, 0xf01, dataOff+3, 0, samples[1:]))
+		case "nosize":
+			kids = append(kids, mTrun(0, 0x001, dataOff, 0, samples))
+		}
+		switch c["sbgp"] {
+		case "in1":
+			kids = append(kids, mkFull("sbgp", 0, 0, []byte("seig"), be32(1), be32(2), be32(0x10001)))
+		case "in2":
+			kids = append(kids, mkFull("sbgp", 0, 0, []byte("seig"), be32(1), be32(2), be32(0x10002)))
+		case "gl1":
+			kids = append(kids, mkFull("sbgp", 0, 0, []byte("seig"), be32(1), be32(2), be32(1)))
+		case "two":
+			kids = append(kids, mkFull("sbgp", 0, 0, []byte("seig"), be32(2), be32(1), be32(0x10001), be32(1), be32(0)))
+		case "roll":
+			kids = append(kids, mkFull("sbgp", 0, 0, []byte("roll"), be32(1), be32(2), be32(0x10001)))
+		case "zero":
+			kids = append(kids, mkFull("sbgp", 0, 0, []byte("seig"), be32(0)))
+		}
+		seig := func(iv byte, constIV []byte) []byte {
+			e := cat([]byte{0, 0, 1, iv}, make([]byte, 16))
+			if constIV != nil {
+				e = cat(e, []byte{byte(len(constIV))}, constIV)
+			}
+			return e
+		}
+		switch c["sgpd"] {
+		case "seig0":
+			kids = append(kids, mkFull("sgpd", 1, 0, []byte("seig"), be32(20), be32(0)))
+		case "seig1":
+			kids = append(kids, mkFull("sgpd", 1, 0, []byte("seig"), be32(20), be32(1), seig(8, nil)))
+		case "seig1c":
+			kids = append(kids, mkFull("sgpd", 1, 0, []byte("seig"), be32(29), be32(1), seig(0, []byte{1, 2, 3, 4, 5, 6, 7, 8})))
+		case "seig2":
+			kids = append(kids, mkFull("sgpd", 1, 0, []byte("seig"), be32(20), be32(2), seig(8, nil), seig(16, nil)))
+		case "roll1":
+			kids = append(kids, mkFull("sgpd", 1, 0, []byte("roll"), be32(2), be32(1), be16(0xffff)))
+		case "v0":
+			kids = append(kids, mkFull("sgpd", 0, 0, []byte("seig"), be32(1), seig(8, nil)))
+		}
+		switch c["saiz"] {
+		case "def8n2":
+			kids = append(kids, mkFull("saiz", 0, 0, []byte{8}, be32(2)))
+		case "def16n2":
+			kids = append(kids, mkFull("saiz", 0, 0, []byte{16}, be32(2)))
+		case "tab2":
+			kids = append(kids, mkFull("saiz", 0, 0, []byte{0}, be32(2), []byte{8, 8}))
+		case "def0n0":
+			kids = append(kids, mkFull("saiz", 0, 0, []byte{0}, be32(0)))
+		case "n3":
+			kids = append(kids, mkFull("saiz", 0, 0, []byte{8}, be32(3)))
+		}
+		switch c["saio"] {
+		case "match":
+			kids = append(kids, mkFull("saio", 0, 0, be32(1), be32(sencOff)))
+		case "v1match":
+			kids = append(kids, mkFull("saio", 1, 0, be32(1), be64(sencOff)))
+		case "e0":
+			kids = append(kids, mkFull("saio", 0, 0, be32(0)))
+		case "off0":
+			kids = append(kids, mkFull("saio", 0, 0, be32(1), be32(0)))
+		case "two":
+			kids = append(kids, mkFull("saio", 0, 0, be32(2), be32(sencOff), be32(sencOff+8)))
+		}
+		iv := func(n int, b byte) []byte { x := make([]byte, n); x[n-1] = b; return x }
+		var senc []byte
+		hdr := int64(16)
+		switch c["senc"] {
+		case "n2":
+			senc = mkFull("senc", 0, 0, be32(2), iv(8, 1), iv(8, 2))
+		case "n2s":
+			senc = mkFull("senc", 0, 2, be32(2), iv(8, 1), be16(1), be16(1), be32(2), iv(8, 2), be16(1), be16(1), be32(3))
+		case "n0":
+			senc = mkFull("senc", 0, 0, be32(0))
+		case "n3":
+			senc = mkFull("senc", 0, 0, be32(3), iv(8, 1), iv(8, 2), iv(8, 3))
+		case "iv16":
+			senc = mkFull("senc", 0, 0, be32(2), iv(16, 1), iv(16, 2))
+		case "short":
+			senc = mkFull("senc", 0, 0, be32(2), iv(8, 1))
+		case "uuid":
+			senc = mkBox("uuid", piffSencUUID, []byte{0, 0, 0, 0}, be32(2), iv(8, 1), iv(8, 2))
+			hdr = 32
+		}
+		traf := mkBox("traf", cat(kids...), senc)
+		moof := mkBox("moof", mMfhd(1), traf)
+		return moof, int64(len(moof)-len(senc)) + hdr
+	}
+	m, so := build(0, 0)
+	m, _ = build(int64(len(m)+8), so)
+	return cat(m, mMdat(mkPayload(7), false))
+}
+
+func crossStbl(c map[string]string) []byte {
+	var kids [][]byte
+	add := func(b []byte) { kids = append(kids, b) }
+	switch c["stsd"] {
+	case "avc1":
+		add(mStsd(mVisualEntry("avc1", 16, 16)))
+	case "e0":
+		add(mStsd())
+	case "two":
+		add(mStsd(mVisualEntry("avc1", 16, 16), mVisualEntry("avc1", 32, 32)))
+	}
+	switch c["stts"] {
+	case "n2":
+		add(mStts([]runEntry{{2, 10}}))
+	case "n3":
+		add(mStts([]runEntry{{3, 10}}))
+	case "e0":
+		add(mStts(nil))
+	case "zerocount":
+		add(mStts([]runEntry{{0, 10}, {2, 10}}))
+	}
+	switch c["ctts"] {
+	case "n2":
+		add(mCtts(0, []runEntry{{2, 5}}))
+	case "n1":
+		add(mCtts(0, []runEntry{{1, 5}}))
+	}
+	switch c["stsc"] {
+	case "one":
+		add(mStsc([]stscEntry{{1, 2, 1}}))
+	case "e0":
+		add(mStsc(nil))
+	case "fc0":
+		add(mStsc([]stscEntry{{0, 2, 1}}))
+	case "fc2":
+		add(mStsc([]stscEntry{{2, 2, 1}}))
+	case "spc0":
+		add(mStsc([]stscEntry{{1, 0, 1}}))
+	case "desc":
+		add(mStsc([]stscEntry{{2, 1, 1}, {1, 1, 1}}))
+	case "sdi9":
+		add(mStsc([]stscEntry{{1, 2, 9}}))
+	}
+	switch c["stsz"] {
+	case "tab2":
+		add(mStsz(0, []int{3, 4}))
+	case "uni2":
+		add(mStsz(3, []int{0, 0}))
+	case "tab1":
+		add(mStsz(0, []int{3}))
+	case "cnt0":
+		add(mStsz(0, nil))
+	}
+	moovLen := func(stco []byte) int {
+		return len(crossProg(append(append([][]byte{}, kids...), stco), c["stss"]))
+	}
+	var stco []byte
+	switch c["stco"] {
+	case "c1":
+		off := int64(24 + moovLen(mStco([]int64{0})) + 8)
+		stco = mStco([]int64{off})
+	case "e0":
+		stco = mStco(nil)
+	case "co64":
+		off := int64(24 + moovLen(mCo64([]int64{0})) + 8)
+		stco = mCo64([]int64{off})
+	case "c2":
+		off := int64(24 + moovLen(mStco([]int64{0, 0})) + 8)
+		stco = mStco([]int64{off, off + 3})
+	}
+	if stco != nil {
+		kids = append(kids, stco)
+	}
+	return cat(mFtyp("isom", 0, "isom", "mp41"), crossProg(kids, c["stss"]), mMdat(mkPayload(7), false))
+}
+
+func crossProg(stblKids [][]byte, stss string) []byte {
+	kids := append([][]byte{}, stblKids...)
+	switch stss {
+	case "s1":
+		kids = append(kids, mStss([]int{1}))
+	case "s9":
+		kids = append(kids, mStss([]int{1, 9}))
+	case "e0":
+		kids = append(kids, mStss(nil))
+	case "s0":
+		kids = append(kids, mStss([]int{0}))
+	}
+	trak := mkBox("trak", mTkhd(1, 20, false, 16, 16), mkBox("mdia", mMdhd(1000, 20), mHdlr("vide", "v"), mkBox("minf", mVmhd(), mDinf(), mkBox("stbl", kids...))))
+	return mkBox("moov", mMvhd(1000, 20, 2), trak)
+}
+
+func c04CrossRefs(args []string) error {
+	return readLines(argValue(args, "-in", "-"), func(line []byte) error {
+		var c struct {
+			Mode       string            `json:"mode"`
+			Combo      map[string]string `json:"combo"`
+			Dev        int               `json:"dev"`
+			Consistent bool              `json:"consistent"`
+		}
+		if err := json.Unmarshal(line, &c); err != nil {
+			return err
+		}
+		var file []byte
+		var id string
+		if c.Mode == "traf" {
+			ini := cat(mFtyp("iso6", 0, "iso6", "cmfc"), crossMoov(c.Combo["moov"]))
+			file = cat(ini, crossTraf(c.Combo, len(ini)))
+			id = fmt.Sprintf("G7/traf/moov=%s,tfhd=%s,trun=%s,senc=%s,saiz=%s,saio=%s,sbgp=%s,sgpd=%s", c.Combo["moov"], c.Combo["tfhd"], c.Combo["trun"], c.Combo["senc"], c.Combo["saiz"], c.Combo["saio"], c.Combo["sbgp"], c.Combo["sgpd"])
+		} else {
+			file = crossStbl(c.Combo)
+			id = fmt.Sprintf("G7/stbl/stsd=%s,stts=%s,ctts=%s,stsc=%s,stsz=%s,stco=%s,stss=%s", c.Combo["stsd"], c.Combo["stts"], c.Combo["ctts"], c.Combo["stsc"], c.Combo["stsz"], c.Combo["stco"], c.Combo["stss"])
+		}
+		// a combination the model calls consistent must be accepted by the plain decoder; otherwise model and materialiser disagree
+		accepted := true
+		func() {
+			defer func() {
+				if r := recover(); r != nil {
+					accepted = true // panics are the monitor's business
+				}
+			}()
+			_, err := mp4.DecodeFile(bytes.NewReader(file))
+			accepted = err == nil
+		}()
+		emit(J{"id": id, "kind": "file", "hex": hex.EncodeToString(file), "consistent": c.Consistent, "accepted": accepted})
+		return nil
+	})
 }
